@@ -526,6 +526,27 @@ def rule_file2b(prog, rep, tier, anchor="conformance._conform_filename"):
                     ok = True
         if ok:
             rep.holds("FILE-2b", "rewrite guarded by AST inequality", loc(prog, node), "guard found among %d enclosing conditions" % len(gs))
+            # ZIP-EQ: when the comparison is a repository function, an element-wise comparison of two sequences must also
+            # compare their lengths (zip / map over two iterables stops at the shorter one)
+            for a, p in fs:
+                if isinstance(a, ast.Call):
+                    for t in prog.resolve_expr_fn(a.func, a):
+                        if isinstance(t, FunctionInfo):
+                            for f_ in prog.region(t):
+                                for c in ast.walk(f_.node):
+                                    pairwise = (isinstance(c, ast.Call) and isinstance(c.func, ast.Name) and c.func.id == "map" and len(c.args) == 3) or \
+                                               (isinstance(c, ast.Call) and isinstance(c.func, ast.Name) and c.func.id == "zip" and len(c.args) == 2)
+                                    if not pairwise:
+                                        continue
+                                    seqs = [dump(x) for x in c.args[-2:]]
+                                    has_len = any(isinstance(k, ast.Compare) and isinstance(k.left, ast.Call) and getattr(k.left.func, "id", "") == "len"
+                                                  and isinstance(k.comparators[0], ast.Call) and getattr(k.comparators[0].func, "id", "") == "len" for k in ast.walk(f_.node))
+                                    if has_len:
+                                        rep.holds("FILE-2b", "%s compares sequence lengths before pairing elements" % f_.qualname, loc(prog, c), "")
+                                    else:
+                                        rep.violation(Finding("FILE-2b", f_.qualname, "zip-truncation:%s" % src(c, 50),
+                                                              "the equality function used to decide whether a target needs rewriting pairs two sequences with %s and never compares "
+                                                              "their lengths: a stale definition that is a proper prefix of the truth compares equal and is left stale" % src(c, 50), loc(prog, c)))
         else:
             rep.violation(Finding("FILE-2b", anchor, "rewrite-unguarded",
                                   "the in-place rewrite %s is not control-dependent on an inequality test between the found node and its "
